@@ -22,7 +22,7 @@ CheckFun(e) ==
       allMean == \A o \in 1..2 : s.est[o] = "mean" /\ x.res[o].st = "val"
   IN IF e.outcome \notin {"ok", "toofew", "nofunctions", "allnan"} THEN "internal_exception"
      ELSE IF e.outcome # "toofew" /\ (\E r \in 1..R : e.failedObs[r] # (r \in s.F)) THEN "failed_flags"
-     ELSE IF x.st = "toofew" THEN (IF e.outcome = "toofew" THEN "ok" ELSE "too_few_not_signalled")
+     ELSE IF x.st = "toofew" THEN (IF e.outcome \in {"toofew", "nofunctions"} THEN "ok" ELSE "too_few_not_signalled")
      ELSE IF x.st = "nofunctions" THEN (IF e.outcome = "nofunctions" THEN "ok" ELSE "functions_reported_below_min_success")
      ELSE IF x.st = "allnan" THEN "ok"
      ELSE IF e.outcome = "allnan" /\ (\A f \in 1..3 : x.res[f].st = "dontcare") THEN "ok"
